@@ -267,33 +267,41 @@ func corpus(c *core.Case) {
 		}
 		run.Nontrivial(fmt.Sprintf("corpus:fixed-log:%d", c.I))
 
-	case 5: // markers at file boundaries: every record in a file of its own, empty head, restart on an empty head
-		list := fixedList(17, 14, true)
-		fl, err := newFileLog(c, walCfg{Limit: 1, Sessions: 2})
+	case 5: // markers at file boundaries: every record in a file of its own, empty head, restart on an empty head, rotation with unflushed writes
+		list := fixedList(17, 21, true)
+		fl, err := newFileLog(c, walCfg{Limit: 1, Sessions: 3})
 		if err != nil {
 			run.Inconclusive(err.Error())
 			return
 		}
 		defer fl.cleanup()
-		for s := 0; s < 2; s++ {
+		for s := 0; s < 3; s++ {
 			if err := fl.start(); err != nil {
 				c.Violation("roundtrip:file:start-failed", err.Error(), nil)
 				return
 			}
 			fl.check(true)
-			for _, m := range list[s*7 : s*7+7] {
-				if err := fl.write(m, true); err != nil {
+			// sessions 0 and 1: every write synced, then a check (one record per file);
+			// session 2: every second write is unsynced and sits in the group's buffer when the check rotates the head
+			for i, m := range list[s*7 : s*7+7] {
+				synced := s < 2 || i%2 == 0
+				if err := fl.write(m, synced); err != nil {
 					c.Violation("roundtrip:file:write-refused-valid-message", err.Error(), nil)
 					fl.stop()
 					return
 				}
-				fl.check(true)
+				if s < 2 {
+					fl.check(true)
+				} else if !synced {
+					fl.check(false) // the head holds the previous record on disk and this one only in the buffer
+				}
 			}
-			if s == 1 {
-				// a marker as the very last record, followed by an empty head
+			if s == 2 {
+				// a marker as the very last record (heights stay increasing), followed by an empty head
 				fl.write(consensus.EndHeightMessage{Height: 1 << 50}, true)
 				fl.check(true)
 			}
+			fl.wal.FlushAndSync()
 			lm, files := layoutModel(c, fl, "one record per file")
 			if lm != nil {
 				j := &judge{c: c, lm: lm, ctx: fl.ctx()}
@@ -307,9 +315,9 @@ func corpus(c *core.Case) {
 		}
 		run.Count("rotations", fl.rotations)
 		run.Count("restarts", fl.restarts)
-		// the second start found an empty head and wrote EndHeight 0 again: two markers for height 0
-		if n := len(heightsOf(fl.model)[0]); n != 2 {
-			run.Inconclusive(fmt.Sprintf("corpus: expected two end-height-0 markers after a restart on an empty head, model has %d", n))
+		// the second start found an empty head and wrote EndHeight 0 again: at least two markers for height 0
+		if n := len(heightsOf(fl.model)[0]); n < 2 {
+			run.Inconclusive(fmt.Sprintf("corpus: expected end-height-0 markers after a restart on an empty head, model has %d", n))
 		}
 		run.Nontrivial("corpus:one-record-per-file")
 
